@@ -64,10 +64,11 @@ def child(kind, v):
       lambda: (),
       lambda: 'str%d' % 7,
       lambda: {'1': v, '0': v + 1},          # digit-string keys are still a dict
+      lambda: [v + i for i in range(12)],    # indices '10','11' sort before '2'
   ], kind)()
 
 
-NCHILD = 13
+NCHILD = 14
 
 
 def tree(top, n, c0, c1, c2, v):
@@ -173,6 +174,20 @@ def mismatch(kind, depth, ta, tb, v):
     saved = Bc(*[vals['abc'.index(f)] for f in Bc._fields])
     ok = set(A._fields) == set(Bc._fields)
     want = A(*[vals['abc'.index(f)] for f in A._fields])
+  elif kind == 6:                      # surplus saved entry named like a STATIC field
+    if ta >= 2 or tb >= 2 or depth != 0:
+      raise Reject()
+    target = S_pq(0, 0)
+    sd = {'p': vals[0], 'q': vals[1]}
+    if tb:
+      sd['tag'] = 's'                   # 'tag' is pytree_node=False in S_pq
+    ok = not tb
+    want = S_pq(vals[0], vals[1])
+    try:
+      got = SER.from_state_dict(target, sd)
+    except ValueError as e:
+      return (not ok) and 'tag' in str(e)
+    return ok and same(got, want)
   else:                                # dataclass field names
     if ta >= 4 or tb >= 4:
       raise Reject()
@@ -255,10 +270,11 @@ class _NP:
 
 
 SHAPES = [(0,), (1,), (5,), (2, 3), (3, 2), (1, 6), (6, 1), (2, 1, 3), (), (7,),
-          (2, 2, 2)]
+          (2, 2, 2), (12,), (3, 4), (2, 1, 1, 1, 1, 1, 1, 1, 1, 1, 3)]
 
 
-def chunking(sh, it, M, e0, e1, e2, e3, e4, e5, e6, e7, nest):
+def chunking(sh, it, M, e0, e1, e2, e3, e4, e5, e6, e7, nest, e8=0, e9=0, e10=0,
+             e11=0):
   """_chunk_array_leaves_in_place / _unchunk_array_leaves_in_place: identity on
   elements, order and shape, for the given MAX_CHUNK_SIZE (bytes); every chunk
   within the limit when one item fits; result independent of the threshold."""
@@ -271,7 +287,7 @@ def chunking(sh, it, M, e0, e1, e2, e3, e4, e5, e6, e7, nest):
   n = 1
   for s in shape:
     n *= s
-  elems = [e0, e1, e2, e3, e4, e5, e6, e7][:n]
+  elems = [e0, e1, e2, e3, e4, e5, e6, e7, e8, e9, e10, e11][:n]
   arr = FakeArr(elems, shape, itemsize)
   old_np, old_max = SER.np, SER.MAX_CHUNK_SIZE
   SER.np = _NP()
@@ -348,14 +364,14 @@ def obligations(tier):
          bounds='%d top-level containers x <=%d children of %d kinds (nesting<=3)'
                 % (NTOP, 2 if quick else 3, NCHILD)),
       Ob('state_dict_mismatch', mismatch,
-         dict(kind=I(0, 5), depth=I(0, 2), ta=I(0, 7), tb=I(0, 7), v=I(-3, 3)),
+         dict(kind=I(0, 6), depth=I(0, 2), ta=I(0, 7), tb=I(0, 7), v=I(-3, 3)),
          split=('kind', 'depth'), timeout=300, funcs=F,
          bounds='dict/FrozenDict key sets over 3 keys, list/tuple lengths 0..3, 4 '
                 'namedtuple and 4 dataclass field layouts, at depth 0..2'),
       Ob('chunk_roundtrip', chunking,
          dict(sh=I(0, len(SHAPES) - 1), it=I(0, 4), M=I(1, 24 if quick else 140),
               e0=el, e1=el, e2=el, e3=el, e4=el, e5=el, e6=el, e7=el,
-              nest=I(0, 2)),
+              nest=I(0, 2), e8=el, e9=el, e10=el, e11=el),
          split=('sh', 'it'), timeout=300, funcs=G,
          bounds='shapes %r, itemsize 1..16, MAX_CHUNK_SIZE 1..%d bytes, symbolic '
                 'elements' % (SHAPES, 24 if quick else 140)),
